@@ -82,6 +82,21 @@ func aggregateMain() int {
 		violations = append(violations, s.Violations...)
 		infra = append(infra, s.Infra...)
 	}
+	// race-detector companion (C09, C12, C13)
+	var race *raceSummary
+	if rd := os.Getenv("VRACEDIR"); rd != "" {
+		rs, rv, rk := aggregateRaces(prop, rd, envOr("VREPLAYDIR", "/verif/out/replays"), loadKnown(envOr("VKNOWN", "/verif/known_findings.json")))
+		race = &rs
+		violations = append(violations, rv...)
+		for k, v := range rk {
+			if _, ok := tot.KnownHits[k]; !ok {
+				tot.KnownHits[k] = v
+			}
+		}
+		if rs.Processes == 0 || (rs.Cases == 0 && rs.Reports == 0) {
+			infra = append(infra, "race-detector companion did not run")
+		}
+	}
 	// verdict lines
 	var khKeys []string
 	for k := range tot.KnownHits {
@@ -163,6 +178,9 @@ func aggregateMain() int {
 		"wall_s":     wall,
 		"violations": nviol,
 	}
+	if race != nil {
+		ev["coverage"].(map[string]any)["race_monitor"] = race
+	}
 	b, _ := json.MarshalIndent(ev, "", " ")
 	if evidence != "" {
 		os.MkdirAll(filepath.Dir(evidence), 0o755)
@@ -173,15 +191,15 @@ func aggregateMain() int {
 	}
 	fmt.Printf("summary: property=%s tier=%s seed=%d cases=%d sims=%d steps=%d cells=%d interleavings=%d known=%d violations=%d infra=%d wall=%.0fs\n",
 		prop, tier, seed, tot.Evaluations, tot.Sims, tot.Steps, len(tot.Cells), len(tot.Scheds), len(khKeys), nviol, len(infra), wall)
+	for i, e := range infra {
+		if i < 5 {
+			fmt.Printf("infrastructure: %s\n", e)
+		}
+	}
 	if nviol > 0 {
 		return 1
 	}
 	if len(infra) > 0 {
-		for i, e := range infra {
-			if i < 5 {
-				fmt.Printf("infrastructure: %s\n", e)
-			}
-		}
 		return 2
 	}
 	if tot.Evaluations == 0 || len(files) == 0 {
